@@ -190,6 +190,82 @@ def check(repo: Repo, run: Run) -> None:
                 and any(isinstance(r, ast.Return) for r in n.body)]
         run.shape("C14.F1", f"{label}|error-args", len(errs) >= (2 if label == "function_eval" else 2),
                f"{label} returns an argument that already is an error ({len(errs)} checks)", ev.loc(fn))
+    # F8: an argument that is an error value is never handed to the callable (string(<error>) would turn the error's
+    # text into a value).  Either the evaluated argument list reaches function_eval / method_eval through the
+    # `exprlist` rule method (which returns the first error instead of the list), or the method scans the elements.
+    evcls = ev.cls("Evaluator")
+    emeths = class_methods(evcls)
+
+    def scans_elements(fn: ast.FunctionDef) -> bool:
+        for n in ast.walk(fn):
+            if isinstance(n, (ast.For, ast.comprehension)):
+                tv = n.target
+                if not isinstance(tv, ast.Name):
+                    continue
+                scope = n.body if isinstance(n, ast.For) else [getattr(n, "_parent", None) or fn]
+                tests = list(n.ifs) if isinstance(n, ast.comprehension) else []
+                for sc in scope:
+                    tests += [t.test for t in ast.walk(sc) if isinstance(t, ast.If)] if isinstance(sc, ast.AST) else []
+                for t in tests:
+                    for c in ast.walk(t):
+                        if isinstance(c, ast.Call) and dotted(c.func) == "isinstance" and len(c.args) == 2 and isinstance(strip_cast(c.args[0]), ast.Name) \
+                                and strip_cast(c.args[0]).id == tv.id and "CELEvalError" in ast.unparse(c.args[1]):
+                            return True
+        return False
+
+    rule_reduces = "exprlist" in emeths and scans_elements(emeths["exprlist"])
+
+    def classify(e: ast.expr, caller: ast.FunctionDef, depth: int = 0) -> str:
+        e = strip_cast(e)
+        if isinstance(e, ast.Constant) and e.value is None:
+            return "none"
+        if isinstance(e, ast.Call) and dotted(e.func) == "self.visit":
+            return "reduced" if rule_reduces else "raw"
+        if isinstance(e, ast.Call) and dotted(e.func) == "self.visit_children":
+            return "raw"  # the values of the children of the exprlist node: the rule method itself did not run
+        if isinstance(e, (ast.List, ast.ListComp, ast.GeneratorExp, ast.Tuple)):
+            return "raw"
+        if isinstance(e, ast.Name) and depth < 3:
+            kinds = set()
+            for n in ast.walk(caller):
+                if isinstance(n, ast.Assign):
+                    for t in n.targets:
+                        if isinstance(t, ast.Name) and t.id == e.id:
+                            kinds.add(classify(n.value, caller, depth + 1))
+                        elif isinstance(t, (ast.Tuple, ast.List)) and any(isinstance(x, ast.Name) and x.id == e.id for x in t.elts):
+                            v = strip_cast(n.value)
+                            # member, ident, args = self.visit_children(tree): each element is the visited child
+                            kinds.add(("reduced" if rule_reduces else "raw") if isinstance(v, ast.Call) and dotted(v.func) == "self.visit_children" else "unknown")
+                elif isinstance(n, ast.AnnAssign) and isinstance(n.target, ast.Name) and n.target.id == e.id and n.value is not None:
+                    kinds.add(classify(n.value, caller, depth + 1))
+            if len(kinds) == 1:
+                return kinds.pop()
+            return "raw" if "raw" in kinds else "unknown"
+        return "unknown"
+
+    n8 = 0
+    for label, fn in (("function_eval", fe), ("method_eval", me)):
+        params = [a.arg for a in fn.args.args]
+        pidx = len(params) - 1  # the argument list is the last parameter
+        scans = scans_elements(fn)
+        for cname, caller in sorted(emeths.items()):
+            for c in ast.walk(caller):
+                if isinstance(c, ast.Call) and dotted(c.func) == f"self.{label}":
+                    arg = c.args[pidx - 1] if len(c.args) >= pidx else next((k.value for k in c.keywords if k.arg == params[pidx]), None)
+                    if arg is None:
+                        continue
+                    n8 += 1
+                    how = classify(arg, caller)
+                    key = f"{label}<-{cname}|error-args"
+                    if scans or how in ("reduced", "none"):
+                        run.ob("C14.F8", key, True, f"{cname} passes `{ast.unparse(arg)[:50]}` ({how}); {label} " + ("scans the elements for errors" if scans else "receives the exprlist rule's result, which is the first error if there is one"), ev.loc(c))
+                    elif how == "raw":
+                        run.ob("C14.F8", key, False,
+                               f"{cname} hands {label} the evaluated arguments themselves (`{ast.unparse(arg)[:50]}`: the exprlist rule method did not run) and {label} does not "
+                               "test the elements: an argument that is an error value is passed to the function as an ordinary value (string(int(<too large>)) returns the error's text)", ev.loc(c))
+                    else:
+                        run.inconclusive("C14.F8", key, f"where `{ast.unparse(arg)[:50]}` comes from was not recognised")
+    run.floor("C14.F8", n8, 2)
     # the call shape: f(*args) vs f(receiver, *args) - the callable is the variable bound from resolve_function(...)
     def host_calls(fn: ast.FunctionDef):
         bound = {t.id for n in ast.walk(fn) if isinstance(n, (ast.Assign, ast.AnnAssign)) and n.value is not None
